@@ -6,6 +6,7 @@ package main
 import (
 	"bufio"
 	"bytes"
+	"flag"
 	"fmt"
 	"os"
 	"os/exec"
@@ -427,9 +428,31 @@ type input struct {
 	dv     [2]Devs
 	cp     [2]Couples
 	bd     [2]Burndown
+	// chained merges (chain.go): the shape and the three or four operands with their summaries
+	chain string
+	cs    []Common
+	dvs   []Devs
+	cps   []Couples
+	bds   []Burndown
 }
 
 func (in input) fields() []Sx {
+	if in.chain != "" {
+		var cs, rs []Sx
+		for _, c := range in.cs {
+			cs = append(cs, c.sx("c"))
+		}
+		for _, d := range in.dvs {
+			rs = append(rs, d.sx())
+		}
+		for _, d := range in.cps {
+			rs = append(rs, d.sx())
+		}
+		for _, d := range in.bds {
+			rs = append(rs, d.sx())
+		}
+		return []Sx{T("an", A(in.an)), T("chain", A(in.chain)), T("cs", cs...), T("rs", rs...)}
+	}
 	fs := []Sx{T("an", A(in.an)), in.c1.sx("c1"), in.c2.sx("c2")}
 	if in.fam != "" {
 		fs = append(fs, T("fam", A(in.fam)))
@@ -447,6 +470,23 @@ func (in input) fields() []Sx {
 
 func parseInput(cs Sx) input {
 	in := input{an: must(cs, "an").Args()[0].Atom}
+	if f, ok := cs.Field("chain"); ok {
+		in.chain = f.Args()[0].Atom
+		for _, c := range must(cs, "cs").Args() {
+			in.cs = append(in.cs, parseCommon(c))
+		}
+		for _, r := range must(cs, "rs").Args() {
+			switch in.an {
+			case "devs":
+				in.dvs = append(in.dvs, parseDevs(r))
+			case "couples":
+				in.cps = append(in.cps, parseCouples(r))
+			case "burndown":
+				in.bds = append(in.bds, parseBurndown(r))
+			}
+		}
+		return in
+	}
 	in.c1 = parseCommon(must(cs, "c1"))
 	in.c2 = parseCommon(must(cs, "c2"))
 	if f, ok := cs.Field("fam"); ok && len(f.Args()) == 1 {
@@ -480,6 +520,9 @@ func (in input) people() ([]string, []string) {
 
 // observe runs the real code on one input (in this process).
 func observe(in input) []Sx {
+	if in.chain != "" {
+		return observeChain(in)
+	}
 	if in.an == "common" {
 		c1, c2 := in.c1.build(), in.c2.build()
 		_, p := Catch(func() { c1.Merge(c2) })
@@ -533,14 +576,41 @@ func observe(in input) []Sx {
 }
 
 var isChild bool
+var only string
 
 // Burndown cases are evaluated in a child process: BurndownAnalysis.MergeResults does its work in goroutines,
 // and a panic in a goroutine cannot be recovered by the caller - it kills the process.  The child handles a
 // batch of cases and prints one result line per case; when it dies, the case it was working on is recorded as
 // a panic of the implementation and a new child continues with the rest.
-func childMain(cases []Sx) {
+func childMain(path string, from int) {
+	f, err := os.Open(path)
+	if err != nil {
+		fmt.Fprintln(os.Stderr, err)
+		os.Exit(2)
+	}
+	defer f.Close()
+	rd := bufio.NewReaderSize(f, 1<<20)
 	out := bufio.NewWriter(os.Stdout)
-	for i, cs := range cases {
+	for i := 0; ; i++ {
+		line, err := rd.ReadString('\n')
+		if len(line) == 0 && err != nil {
+			break
+		}
+		if i < from {
+			continue // handled by an earlier child
+		}
+		cs, perr := ParseSx(strings.TrimSpace(line))
+		if perr != nil {
+			fmt.Fprintln(os.Stderr, "bad batch line:", perr)
+			os.Exit(2)
+		}
+		i := i
+		// a chained case reports every call before and after it is made: when a call kills the process the parent
+		// still knows which call it was and what its operands were
+		chainProgress = func(x Sx) {
+			fmt.Fprintf(out, "PART %d %s\n", i, x.String())
+			out.Flush()
+		}
 		obs := observe(parseInput(cs))
 		fmt.Fprintf(out, "RES %d %s\n", i, T("obs", obs...).String())
 		out.Flush()
@@ -549,34 +619,49 @@ func childMain(cases []Sx) {
 
 func runBatch(ins []input) [][]Sx {
 	res := make([][]Sx, len(ins))
+	// the batch is written once; a child that replaces a dead one skips the lines already handled
+	tmp, err := os.CreateTemp("", "c18-batch-*.txt")
+	if err != nil {
+		panic(err)
+	}
+	w := bufio.NewWriter(tmp)
+	for k := range ins {
+		l := append([]Sx{A("case"), I(k)}, ins[k].fields()...)
+		w.WriteString(Sx{List: l, IsL: true}.String())
+		w.WriteByte('\n')
+	}
+	w.Flush()
+	tmp.Close()
+	defer os.Remove(tmp.Name())
 	start := 0
 	for start < len(ins) {
-		tmp, err := os.CreateTemp("", "c18-batch-*.txt")
-		if err != nil {
-			panic(err)
-		}
-		w := bufio.NewWriter(tmp)
-		for k := start; k < len(ins); k++ {
-			l := append([]Sx{A("case"), I(k - start)}, ins[k].fields()...)
-			w.WriteString(Sx{List: l, IsL: true}.String())
-			w.WriteByte('\n')
-		}
-		w.Flush()
-		tmp.Close()
-		cmd := exec.Command(os.Args[0], "-child", "-replay", tmp.Name(), "-out", os.DevNull)
+		cmd := exec.Command(os.Args[0], "-child", "-from", strconv.Itoa(start), "-replay", tmp.Name(), "-out", os.DevNull)
 		var stderr, stdout bytes.Buffer
 		cmd.Stderr = &stderr
 		cmd.Stdout = &stdout
 		runErr := cmd.Run()
-		os.Remove(tmp.Name())
 		done := 0
+		var parts []Sx // the progress lines of the case the child is working on
 		for _, line := range strings.Split(stdout.String(), "\n") {
+			if strings.HasPrefix(line, "PART ") {
+				ps := strings.SplitN(line, " ", 3)
+				if k, err := strconv.Atoi(ps[1]); err == nil && k == start+done && len(ps) == 3 {
+					if sx, err := ParseSx(ps[2]); err == nil {
+						parts = append(parts, sx)
+					}
+				}
+				continue
+			}
 			if !strings.HasPrefix(line, "RES ") {
 				continue
 			}
-			parts := strings.SplitN(line, " ", 3)
-			sx, err := ParseSx(parts[2])
-			if err != nil || len(parts) < 3 {
+			parts = nil
+			ps := strings.SplitN(line, " ", 3)
+			if len(ps) < 3 {
+				break
+			}
+			sx, err := ParseSx(ps[2])
+			if err != nil {
 				break // a line cut short by the crash
 			}
 			res[start+done] = sx.Args()
@@ -594,8 +679,12 @@ func runBatch(ins []input) [][]Sx {
 			fmt.Fprintln(os.Stderr, "child failed:", runErr, msg)
 			os.Exit(2)
 		}
-		rd1, rd2 := ins[start+done].people()
-		res[start+done] = []Sx{idTable(rd1, rd2), T("out", T("panic"))}
+		if ins[start+done].chain != "" {
+			res[start+done] = crashedChain(parts)
+		} else {
+			rd1, rd2 := ins[start+done].people()
+			res[start+done] = []Sx{idTable(rd1, rd2), T("out", T("panic"))}
+		}
 		start += done + 1
 	}
 	return res
@@ -637,6 +726,9 @@ func flushPending(c *Config) {
 }
 
 func nonTrivial(in input) bool {
+	if in.chain != "" {
+		return true
+	}
 	rd1, rd2 := in.people()
 	switch in.an {
 	case "common":
@@ -661,18 +753,24 @@ func emit(c *Config, kind string, in input) {
 func main() {
 	// "-child" must be removed before lib.Setup parses the common flags
 	args := []string{os.Args[0]}
-	for _, a := range os.Args[1:] {
+	childFrom := 0
+	for i := 1; i < len(os.Args); i++ {
+		a := os.Args[i]
 		if a == "-child" {
 			isChild = true
+		} else if a == "-from" && i+1 < len(os.Args) {
+			childFrom, _ = strconv.Atoi(os.Args[i+1])
+			i++
 		} else {
 			args = append(args, a)
 		}
 	}
 	os.Args = args
+	flag.StringVar(&only, "only", "", "restrict the generators to one family (debugging): chain")
 	c := Setup()
 	defer c.Close()
 	if isChild {
-		childMain(c.ReplayCases())
+		childMain(c.Replay, childFrom)
 		return
 	}
 	if c.Replay != "" {
